@@ -260,6 +260,7 @@ def run(ctx):
     dependent_pass(ctx, np)
     notification_pass(ctx, np)
     fine_drag_pass(ctx, np)
+    growing_subject_pass(ctx, np)
     # decode with the front end's own code
     try:
         dec = node_decode(node_cases)
@@ -410,6 +411,46 @@ def fine_drag_pass(ctx, np):
                     cur = new
             except Exception as e:
                 ctx.violation('graph-raises', case, 'a payload', repr(e)[:200], key='widget:raises')
+
+
+def growing_subject_pass(ctx, np):
+    """an array-valued multivector (a trail of points) that has been graphed once and then GROWS in place (each coefficient
+    array replaced by a longer one): every later encoding - re-evaluation of the same widget, a callable returning it, a new
+    widget - contains one element per current array entry with the current coefficients"""
+    from kingdon import MultiVector
+    rng = ctx.rng
+    for sig, basis in (([0, 1, 1], ["e", "e1", "e2", "e0", "e20", "e01", "e12", "e012"]), ([1, 1, 1], None)):
+        alg = make_algebra(sig, None, basis)
+        d = alg.d
+        canon = list(alg.canon2bin.values())
+        pga = alg.r == 1 and d in (3, 4)
+        pk = [k for k in canon if bin(k).count('1') == (d - 1 if pga else 1)]
+        trail = MultiVector.fromkeysvalues(alg, tuple(pk), [np.array([float(rng.randint(1, 9)) for _ in range(2)]) for _ in pk])
+        case = {'sig': sig, 'basis': basis, 'scenario': 'list-backed array-valued multivector grows from 2 to 3 to 5 entries between encodings'}
+        def count_elements(subjects):
+            n = 0
+            for e in flat(subjects):
+                if isinstance(e, dict) and 'mv' in e:
+                    n += 1
+            return n
+        try:
+            w = alg.graph(trail, lambda: trail)
+            first = count_elements(w.subjects)
+            for new_len in (3, 5):
+                vals = trail.values()
+                for i in range(len(vals)):
+                    vals[i] = np.array([float(rng.randint(1, 9)) for _ in range(new_len)])
+                for route, subj in (('same widget, get_subjects()', lambda: w.get_subjects()), ('new widget', lambda: alg.graph(trail).subjects),
+                                    ('new widget, callable', lambda: alg.graph(lambda: trail).subjects)):
+                    c2 = {**case, 'entries_now': new_len, 'route': route}
+                    ctx.case(c2, tag='growing-subject')
+                    got = count_elements(subj())
+                    exp = new_len * (2 if route.startswith('same widget') else 1)
+                    if got != exp:
+                        ctx.violation('payload-elements', c2, f'{exp} encoded elements', f'{got} encoded elements (first encoding had {first})', key='payload:stale-shape')
+                        break
+        except Exception as e:
+            ctx.violation('graph-raises', case, 'a payload', repr(e)[:200], key='widget:raises')
 
 
 def flat(x):
